@@ -171,7 +171,13 @@ def run_c20(chk):
                 text = r.choice(LSP_TEXTS)
             else:
                 text = files.join_file(r, files.gen_file(r))
-            kind = "didOpen" if uri not in docs else "didChange"
+            kind = "didOpen" if uri not in docs else r.weighted([("didChange", 65), ("reopen", 15), ("close-reopen", 20)])
+            if kind == "close-reopen":
+                # the document is closed and opened again with another text (rewritten on disk while closed)
+                c.notify("textDocument/didClose", {"textDocument": {"uri": uri}})
+                script.append({"op": "didClose", "uri": uri})
+            if kind in ("reopen", "close-reopen"):
+                kind = "didOpen"
             if kind == "didOpen":
                 c.notify("textDocument/didOpen", {"textDocument": {"uri": uri, "languageId": "basic", "version": 1, "text": text}})
             else:
